@@ -1463,8 +1463,9 @@ where
         *ic.current_nf.lock().unwrap() = if ic.systolic { self.last } else { 0.0 };
 
         // If we completed the last iteration in pre-local mode, we MUST run in
-        // local mode
-        ic.local = ic.pre_local;
+        // local mode, unless this is a standard iteration, which scans all
+        // nodes and recomputes the neighborhood function from scratch
+        ic.local = ic.pre_local && ic.systolic;
 
         // We run in pre-local mode if we are systolic and few nodes where
         // modified.
